@@ -447,7 +447,9 @@ def mesh(env, topo, n_int, ne, replace, vid_offset=0):
         V2, E2, C2, new_ifaces = ve.generate_mesh(V, E, C, ne=ne, replace_short_edges=replace)
     except Exception as e:  # noqa
         err = e
-    obs = [Ob("generate_mesh-does-not-raise", err is None, note=f"{type(err).__name__}: {err}" if err else None)]
+    ring = topo == "K3-hole" and n_int == 0 and replace and ne >= 2
+    obs = [Ob("generate_mesh-does-not-raise", err is None, note=f"{type(err).__name__}: {err}" if err else None,
+              finding="ring_of_two_point_border_interfaces_raises" if ring else None)]
     if err is not None:
         return obs
     # junctions shared by >= 3 cells: same object, identical coordinate terms
@@ -507,8 +509,8 @@ def mesh(env, topo, n_int, ne, replace, vid_offset=0):
         sub = all(any(x is y for y in it) for x in seq)
         iok = iok & sub & (len(new) <= ne + 1 or len(old) <= ne) & ((len(old) > ne) or len(new) == len(old))
     obs.append(Ob("interfaces-are-ordered-subsequences-with-both-ends-at-most-ne+1-points", iok))
-    obs.append(Ob("two-point-border-interface-contracted-to-its-midpoint", mid_ok, finding="midpoint_abs",
-                  region=None))
+    obs.append(Ob("two-point-border-interface-contracted-to-its-midpoint", mid_ok,
+                  finding="ne1_two_point_border_not_contracted" if ne == 1 else "midpoint_abs", region=None))
     # cell cycles are cyclic subsequences of the original cycles (modulo contracted vertices)
     cok = env.true()
     for cid, c in C2.items():
